@@ -203,9 +203,33 @@ func run(c *project.Config, file string) (res result) {
 		res.kind, res.detail = "rewrite-not-idempotent", fmt.Sprintf("second write produced %q", b2)
 		return
 	}
+	// a configuration file is normally REwritten (tidy, get): writing over an existing, longer
+	// file must give the same bytes as writing a fresh one
+	if err = project.WriteConfigFile(file, &previousConfig); err != nil {
+		vlib.Fatalf("writing the previous configuration: %v", err)
+	}
+	err = project.WriteConfigFile(file, c)
+	res.ops += 2
+	if err != nil {
+		res.kind, res.detail = "write-error", "write over an existing file: "+err.Error()
+		return
+	}
+	if b3 := readBack(file); !bytes.Equal(res.written, b3) {
+		res.kind, res.detail = "overwrite-differs-from-fresh-write", fmt.Sprintf("writing over an existing, longer file produced %q", b3)
+		return
+	}
 	res.kind = "ok"
 	return
 }
+
+// previousConfig is what the file holds before it is rewritten: longer than every enumerated configuration.
+var previousConfig = func() project.Config {
+	c := project.Config{Name: strings.Repeat("previous-name-", 40), Version: "v9.9.9", Ignore: []string{strings.Repeat("ignored/", 60)}, Requirements: map[string]project.RequirementConfig{}}
+	for i := 0; i < 8; i++ {
+		c.Requirements[fmt.Sprintf("previous-requirement-%d", i)] = project.RequirementConfig{Path: fmt.Sprintf("example.com/previous/%d@v3", i), Version: "v3.2.1"}
+	}
+	return c
+}()
 
 func oneLine(s string) string {
 	s = strings.ReplaceAll(s, "\n", " | ")
@@ -692,6 +716,20 @@ func main() {
 		c.Requirements = map[string]project.RequirementConfig{benKey: {Path: pathPool[i/len(versionPool)], Version: versionPool[i%len(versionPool)]}}
 		return c
 	}})
+	// (3a) every path made of <=5 (6) tokens of a small path grammar (most are not in clean form
+	// and are skipped by the independent precondition; the clean ones include '@' in non-final
+	// elements, dotted elements and versioned elements)
+	ptoks := []string{"a", "b", "/", "@", ".", "v2", "v1"}
+	plen := 5
+	if r.Thorough() {
+		plen = 6
+	}
+	gpaths := allSeqs(ptoks, plen)
+	sections = append(sections, section{"pathgrammar", len(gpaths), func(i int) project.Config {
+		c := build(nil)
+		c.Requirements = map[string]project.RequirementConfig{benKey: {Path: gpaths[i], Version: "v2.0.1"}}
+		return c
+	}})
 	// (3b) alphabet strings embedded in path shapes
 	shapes := []func(string) string{
 		func(s string) string { return "x/" + s + "@v2" },
@@ -938,7 +976,7 @@ func main() {
 	r.Finish(vlib.Coverage{
 		Evaluations:        evals.Load(),
 		DistinctNontrivial: nontriv.Load(),
-		Rule: fmt.Sprintf("alphabet of %d symbols (letter, space, both quotes, backslash, LF, TAB, CR, NUL, #, =, 2-byte and 4-byte UTF-8); every string of length<=%d in each of name/version/ignore entry/requirement key/requirement path alone; every pair of strings of length<=%d in every pair of those positions and in two requirement keys; every triple of strings of length<=1 in every triple of positions (thorough: also all five positions at once); 41 path forms x 15 versions; strings of length<=2 embedded in 5 versioned-path shapes; every subset of <=3 of 21 requirement keys x 5 path/version assignments; every ordered ignore list of <=3 of 15 entries + two 200-entry lists; 108 presence/absence layouts; every ASCII character and 16 other code points alone/in a word/doubled in every position. Each valid configuration: write, load, compare, write again, compare bytes. Non-trivial = distinct configuration whose written file contains a backslash escape inside a basic string or a quoted requirement key",
+		Rule: fmt.Sprintf("alphabet of %d symbols (letter, space, both quotes, backslash, LF, TAB, CR, NUL, #, =, 2-byte and 4-byte UTF-8); every string of length<=%d in each of name/version/ignore entry/requirement key/requirement path alone; every pair of strings of length<=%d in every pair of those positions and in two requirement keys; every triple of strings of length<=1 in every triple of positions (thorough: also all five positions at once); 47 path forms x 15 versions; every path of <=5 (6) tokens over {a,b,/,@,.,v2,v1}; strings of length<=2 embedded in 5 versioned-path shapes; every subset of <=3 of 21 requirement keys x 5 path/version assignments; every ordered ignore list of <=3 of 15 entries + two 200-entry lists; 108 presence/absence layouts; every ASCII character and 16 other code points alone/in a word/doubled in every position. Each valid configuration: write, load, compare, write again, compare bytes. Non-trivial = distinct configuration whose written file contains a backslash escape inside a basic string or a quoted requirement key",
 			len(alphabet), maxSingle, maxPair),
 		States:      int64(len(seen)),
 		Transitions: ops.Load(),
